@@ -45,6 +45,10 @@ add("C10", "exploration",
     "Exhaustive enumeration of every time range with endpoints on the half-step grid around a stored run (on / just inside / just outside every row and chunk boundary, and outside the run) x {time_range, seconds_range, time_within} x {fully_contained, touching} x three on-disk layouts (as produced, 1-row chunks, one chunk), with row selections (string, list, callable), kept / dropped columns, single and merged same-kind targets and both processors rotating (quick) or in full product (thorough); oracle: predicate and projection applied to the whole-run result, explicit error for ranges overlapping no chunk, directory listing unchanged.",
     "one 6-row run; time unit chosen so seconds_range values are exact; threaded runs under the fixed default schedule of the controlled scheduler",
     "bounded exhaustive enumeration of inputs x configurations on the implementation vs filtered whole-run reference", "graphs")
+add("C11", "exploration",
+    "Exhaustive enumeration over a 5-type graph with a two-kind multi-output plugin of 24 per-output save-policy assignments x all 32 pre-stored subsets x all targets x save= choices, with request modifiers (time_range, selection, keep_columns, fuzzy_for, allow_incomplete), forbid_creation_of settings and storage-frontend layouts (rw, ro+rw, take_only/exclude) rotating (quick) or in full product (thorough); oracle: an independently written reference planner predicts which plugins run (checked against compute counters), that each running plugin sees every input row once, exactly which directories are created in which frontend, and when DataNotAvailable must be raised.",
+    "one graph shape; rows 4, chunks 2; threaded runs under the fixed default schedule",
+    "bounded exhaustive enumeration of configurations on the implementation vs an independent reference planner", "graphs")
 add("C12", "exploration",
     "Exhaustive enumeration of (violation kind x plugin kind x offending chunk position x processor x target) with the violation injected by tampering with the return value of an otherwise correct harness plugin (wrong dtype bare / inside a Chunk, rows before / after the chunk range, foreign data-type label, overlapping or gapped target chunks, non-dict from a multi-output plugin); oracle: Context.get_array raises and a fresh Context reports the offending data type and all its descendants as not stored; threaded cells additionally explored over schedules with <=1 delay.",
     "violations are injected at the plugin's compute boundary; chunks of 1-2 rows; schedule exploration to delay bound 1 (quick: a rotating 1/12 slice of the threaded cells, thorough: all)",
